@@ -210,6 +210,10 @@ class ListEval:
                 if isinstance(t, ast.Name):
                     self.env[t.id] = v
                     continue
+                if isinstance(t, (ast.Tuple, ast.List)) and isinstance(v, list) and len(v) == len(t.elts) and all(isinstance(x, ast.Name) for x in t.elts):
+                    for x, xv in zip(t.elts, v):
+                        self.env[x.id] = xv
+                    continue
                 if is_self_attr(t):
                     self.env[f"self.{t.attr}"] = v
                     continue
@@ -262,6 +266,16 @@ def bcss_arguments(program: Program, k: ClassInfo):
     return free, init_h1
 
 
+def _substitute(e: ast.expr, subst: dict):
+    import copy as _copy
+
+    class Sub(ast.NodeTransformer):
+        def visit_Name(self, n):  # noqa: N802
+            return _copy.deepcopy(subst[n.id]) if n.id in subst and isinstance(n.ctx, ast.Load) else n
+
+    return Sub().visit(_copy.deepcopy(e))
+
+
 class StepExecutor:
     def __init__(self, program: Program, k: ClassInfo, comp_lists=None):
         self.p = program
@@ -272,6 +286,7 @@ class StepExecutor:
         self.depth = 0
         self.stack: list = []
         self.n_act = 0
+        self.local_exprs: dict[str, ast.expr] = {}  # named intermediate expressions (for norm arguments)
 
     def block_id(self, body) -> int:
         return self.block_ids.setdefault(id(body), len(self.block_ids) + 1)
@@ -355,13 +370,16 @@ class StepExecutor:
             if callee is None:
                 raise AnalysisError(f"{f.qualname}: cannot resolve self.{c.func.attr}")
             return self.inline(callee, c, env, f)
+        # module-level helper of the integrator's own module (e.g. an extracted check)
+        if isinstance(c.func, ast.Name) and c.func.id in f.module.functions:
+            return self.inline(f.module.functions[c.func.id], c, env, f, skip_self=False)
         raise AnalysisError(f"{f.qualname}: call outside the step grammar: {norm(c)[:70]}")
 
-    def inline(self, callee: FuncInfo, c: ast.Call, env, caller):
+    def inline(self, callee: FuncInfo, c: ast.Call, env, caller, skip_self=True):
         self.depth += 1
         if self.depth > 8:
             raise AnalysisError("inlining depth exceeded")
-        ps = callee.params[1:]
+        ps = callee.params[1:] if skip_self else callee.params
         new_env = {}
 
         def bind(a):
@@ -372,6 +390,12 @@ class StepExecutor:
                 return env[a.id]
             if isinstance(a, ast.Constant) and a.value is None:
                 return NONE
+            if isinstance(a, ast.Name) and isinstance(env.get(a.id), tuple):
+                return env[a.id]  # norm(...) results and symbolic expressions pass through
+            if isinstance(a, ast.Constant) and isinstance(a.value, str):
+                return ("expr", repr(a.value))
+            if is_self_attr(a) and a.attr in ("reverse_check_tol", "reverse_check_norm"):
+                return ("expr", norm(a))
             return self.time_expr(a, env)
 
         # parameters with a None default that the call does not supply
@@ -436,9 +460,17 @@ class StepExecutor:
     def fixed_point_update(self, f, fpf: ast.FunctionDef, init_expr, env, target_vars, obj):
         """Analyse nested fixed_point_func: returns (vars, derivs, coeffs)."""
         body = [s for s in fpf.body if not (isinstance(s, ast.Expr) and isinstance(s.value, ast.Constant))]
-        if len(body) != 2 or not isinstance(body[0], ast.Assign) or not isinstance(body[1], ast.Return):
+        if len(body) < 2 or not isinstance(body[0], ast.Assign) or not isinstance(body[-1], ast.Return):
             raise AnalysisError(f"{f.qualname}: fixed-point function outside the accepted idiom")
-        asg, ret = body
+        asg, ret = body[0], body[-1]
+        # named intermediate values between the state update and the return are inlined
+        subst: dict[str, ast.expr] = {}
+        for mid in body[1:-1]:
+            if not (isinstance(mid, ast.Assign) and len(mid.targets) == 1 and isinstance(mid.targets[0], ast.Name)):
+                raise AnalysisError(f"{f.qualname}: fixed-point function outside the accepted idiom: {norm(mid)[:50]}")
+            subst[mid.targets[0].id] = _substitute(mid.value, subst)
+        if subst:
+            ret = ast.Return(value=_substitute(ret.value, subst))
         arg = fpf.args.args[0].arg
         tg = asg.targets[0]
         tgs = tg.elts if isinstance(tg, ast.Tuple) else [tg]
@@ -511,6 +543,10 @@ class StepExecutor:
         if isinstance(t, ast.Name) and isinstance(v, ast.Call) and call_name(v) in ("np.concatenate", "numpy.concatenate"):
             env[t.id] = Saved("?", "concat", True)
             return []
+        # x = self._solve_fixed_point(f, x0): the solution is held in a local before it is assigned
+        if isinstance(t, ast.Name) and isinstance(v, ast.Call) and call_name(v) == "self._solve_fixed_point":
+            env[t.id] = ("lazy_solve", v)
+            return []
         # implicit update via solver
         tgs = t.elts if isinstance(t, ast.Tuple) else [t]
         if all(isinstance(x, ast.Attribute) and self.obj_of(x.value, env) is not None for x in tgs):
@@ -520,6 +556,8 @@ class StepExecutor:
             for n in ast.walk(v):
                 if isinstance(n, ast.Call) and call_name(n) == "self._solve_fixed_point":
                     solver_call = n
+                if isinstance(n, ast.Name) and isinstance(env.get(n.id), tuple) and env[n.id] and env[n.id][0] == "lazy_solve":
+                    solver_call = env[n.id][1]
             if solver_call is not None:
                 fn = solver_call.args[0]
                 if not (isinstance(fn, ast.Name) and fn.id in local_funcs):
@@ -533,7 +571,7 @@ class StepExecutor:
         # rev_diff = self.reverse_check_norm(expr)
         if isinstance(t, ast.Name) and isinstance(v, ast.Call) and call_name(v) == "self.reverse_check_norm":
             terms = []
-            for n in ast.walk(v.args[0]):
+            for n in ast.walk(_substitute(v.args[0], {k2: e2 for k2, e2 in self.local_exprs.items() if isinstance(e2, ast.BinOp) and isinstance(e2.op, ast.Sub)})):
                 if isinstance(n, ast.BinOp) and isinstance(n.op, ast.Sub):
                     l, r = n.left, n.right
                     lo = self.obj_of(l.value, env) if isinstance(l, ast.Attribute) else None
@@ -548,6 +586,7 @@ class StepExecutor:
             return [Event("norm", node=st, func=f.qualname, info={"name": t.id, "terms": terms})]
         # plain arithmetic
         if isinstance(t, ast.Name):
+            self.local_exprs[t.id] = v
             try:
                 env[t.id] = self.time_expr(v, env)
             except AnalysisError:
@@ -601,10 +640,13 @@ class StepExecutor:
             info = {"test": norm(t), "raises": norm(raises[0].exc.func if isinstance(raises[0].exc, ast.Call) else raises[0].exc)}
             lv = env.get(l.id) if isinstance(l, ast.Name) else None
             rv = env.get(r.id) if isinstance(r, ast.Name) else None
+            def text(x, xv):
+                return xv[1] if isinstance(xv, tuple) and xv and xv[0] == "expr" else norm(x)
+
             if isinstance(lv, tuple) and lv and lv[0] == "norm":
-                info.update(norm_terms=lv[1], op=type(t.ops[0]).__name__, bound=norm(r), side="left")
+                info.update(norm_terms=lv[1], op=type(t.ops[0]).__name__, bound=text(r, rv), side="left")
             elif isinstance(rv, tuple) and rv and rv[0] == "norm":
-                info.update(norm_terms=rv[1], op=type(t.ops[0]).__name__, bound=norm(l), side="right")
+                info.update(norm_terms=rv[1], op=type(t.ops[0]).__name__, bound=text(l, lv), side="right")
             return [Event("check", node=st, func=f.qualname, info=info)]
         # `if p is None:` / `if p is not None:` on a parameter whose binding is known at this inlined call
         if isinstance(t, ast.Compare) and len(t.ops) == 1 and isinstance(t.left, ast.Name) and isinstance(t.comparators[0], ast.Constant) and t.comparators[0].value is None and t.left.id in env and isinstance(t.ops[0], (ast.Is, ast.IsNot)):
